@@ -1,7 +1,10 @@
 package kafka
 
 import (
+	"context"
 	"io"
+	"net"
+	"time"
 )
 
 // C02: the Reader/Conn path delivers exactly the partition's records from its position, in order.
@@ -133,4 +136,120 @@ func VH_C02_FetchMessageSet(version, magic, nm int) {
 		vhAssert(no == want[len(want)-1].offset+1, "position-is-last-delivered-plus-one")
 	}
 	vhReach("c02-fetch-messageset")
+}
+
+// H2 (level S): the background fetcher (*reader).run across a connection loss. The first leader connection
+// delivers a fetch response that is cut inside the value of record number `cutAt` (after cutAt complete records);
+// the reader must reconnect and resume exactly after the last delivered record: every record once, in order.
+func VH_C02_ReaderReconnect(cutAt int) {
+	vhConcreteClock(true)
+	const total = 4
+	recs := make([][]byte, total)
+	var set1, set2 []byte
+	for i := 0; i < total; i++ {
+		recs[i] = vhBytes("value", 2)
+		m := vhEncMessage(int64(i), 1, 0, 1600000000000, nil, recs[i])
+		set1 = append(set1, m...)
+		if i >= cutAt {
+			set2 = append(set2, m...)
+		}
+	}
+	// size of the prefix of set1 that is delivered before the connection dies: cutAt whole messages plus all
+	// but the last byte of the next one
+	msgLen := len(vhEncMessage(0, 1, 0, 0, nil, []byte{0, 0}))
+	keep := cutAt*msgLen + msgLen - 1
+
+	meta := func(corr int32) []byte {
+		return append(vhApiVersionsFrame(corr, []vhApiRange{{int16(metadata), 0, 1}}), vhMetadataResponse(corr+1, 1, "t", 0, 0, 1)...)
+	}
+	leader := func(fetchBody []byte, truncateTo int) []byte {
+		var s []byte
+		s = append(s, vhListOffsetsFrame(1, "t", 0, 0, -1, 0)...)     // readOffsets: first
+		s = append(s, vhListOffsetsFrame(2, "t", 0, 0, -1, total)...) // readOffsets: last
+		s = append(s, vhListOffsetsFrame(3, "t", 0, 0, -1, 0)...)     // Seek bounds check: first
+		s = append(s, vhListOffsetsFrame(4, "t", 0, 0, -1, total)...) // Seek bounds check: last
+		s = append(s, vhApiVersionsFrame(5, []vhApiRange{{int16(fetch), 0, 2}})...)
+		f := vhFetchResponse(6, 2, 0, "t", 0, 0, total, fetchBody)
+		if truncateTo >= 0 {
+			f = f[:len(f)-len(fetchBody)+truncateTo]
+		}
+		return append(s, f...)
+	}
+	conns := []*vhFakeConn{
+		{data: meta(1)}, {data: leader(set1, keep)},
+		{data: meta(1)}, {data: leader(set2, -1)},
+	}
+	ctx, cancel := context.WithCancel(context.Background())
+	dials := 0
+	d := &Dialer{DialFunc: func(c context.Context, network, address string) (net.Conn, error) {
+		if dials >= len(conns) {
+			cancel() // the scenario is over
+			return nil, io.ErrClosedPipe
+		}
+		fc := conns[dials]
+		dials++
+		return fc, nil
+	}}
+	msgs := make(chan readerMessage, 16)
+	r := &reader{dialer: d, brokers: []string{"b:9092"}, topic: "t", partition: 0, minBytes: 1, maxBytes: 100000,
+		maxWait: time.Second, readBatchTimeout: time.Second, backoffDelayMin: time.Millisecond, backoffDelayMax: 2 * time.Millisecond,
+		version: 1, msgs: msgs, stats: &readerStats{}, maxAttempts: 1}
+	r.run(ctx, 0)
+
+	var got []readerMessage
+	for len(msgs) > 0 {
+		m := <-msgs
+		if m.error == nil {
+			got = append(got, m)
+		}
+	}
+	vhAssert(len(got) == total, "every-record-delivered-exactly-once-across-the-reconnect")
+	for i := 0; i < total && i < len(got); i++ {
+		vhAssert(got[i].message.Offset == int64(i), "records-in-offset-order-without-duplicates")
+		vhAssert(vhBytesEq(got[i].message.Value, recs[i]), "record-values")
+	}
+	// the second leader connection was asked for the offset right after the last delivered record
+	if dials >= 4 {
+		off, ok := vhFetchOffsetOfLastRequest(conns[3].written)
+		vhAssert(ok, "fetch-request-parsed")
+		vhAssert(off == int64(cutAt), "resumes-at-last-delivered-plus-one")
+	}
+	vhReach("c02-reader-reconnect")
+}
+
+// vhFetchOffsetOfLastRequest parses the first Fetch (v2) request written on a connection.
+func vhFetchOffsetOfLastRequest(w []byte) (int64, bool) {
+	var last []byte
+	for len(w) >= 4 {
+		n := int(vhBE32(w))
+		if len(w) < 4+n {
+			break
+		}
+		if n >= 2 && w[4] == 0 && w[5] == 1 { // the first Fetch request on the connection
+			last = w[4 : 4+n]
+			break
+		}
+		w = w[4+n:]
+	}
+	if last == nil {
+		return 0, false
+	}
+	r := &vhRd{b: last}
+	if r.i16() != 1 || r.i16() != 2 {
+		return 0, false
+	}
+	r.i32()
+	r.str()
+	r.i32()
+	r.i32()
+	r.i32()
+	if r.i32() != 1 {
+		return 0, false
+	}
+	r.str()
+	if r.i32() != 1 {
+		return 0, false
+	}
+	r.i32()
+	return r.i64(), true
 }
